@@ -300,15 +300,19 @@ def generic_cache(c):
     return d
 
 
-def generic_step(c, pkg, op, lens, sym_limits=True, ntape=6, callstack_sym=True):
+def generic_step(c, pkg, op, lens, sym_limits=True, ntape=6, callstack_sym=True, abstract=True, copy_bound=None, tape0=None):
     """one instruction `op` (name, or int for a NOP code) from a symbolic pre-state; returns (state, outcome,
     summary).  Nested run_tape calls go to the P2 summary."""
     F = pkg.functions
     name = op if isinstance(op, str) else f'NOP{op}'
     from sx import core as _core
-    for _k in ('nonlinear', 'digits', 'algebra', 'floats'):   # sound over-approximations of values (only shapes matter)
+    for _k in ('nonlinear', 'digits', 'algebra', 'floats') if abstract else ():   # sound over-approximations of values (only shapes matter)
         _core.ABSTRACT[_k] = True
     tape_data = c.bytes('tape', ntape)
+    if tape0 is not None:
+        c.assume(mk_bool(zi(tape_data[0]) == tape0))
+    if copy_bound is not None and name == 'OP_COPY' and ntape:
+        c.assume(mk_bool(zi(tape_data[0]) <= copy_bound))
     if name in ALGEBRA_OPS or name == 'OP_TAPROOT':
         stubs.CONFIG.sig_mode = 'oracle'
     if callstack_sym:
@@ -340,6 +344,7 @@ def generic_step(c, pkg, op, lens, sym_limits=True, ntape=6, callstack_sym=True)
             c.assume(mk_bool(x < 0x80))
     st.pre_pointer = st.tape.pointer
     st.pre_count = st.tape.callstack_count
+    st.cache0 = [(k, (list(v) if isinstance(v, list) else v)) for k, v in st.cache.entries]
     summ = Summary(pkg)
     with Installed(pkg, summ):
         r = run_op(pkg, op, st)
